@@ -17,7 +17,7 @@ RULE = ('Cases = generated scene (layered with 1-5 hits per measurement and VV h
         'messages and the flag are identical; B2 = crop model applied to the input (type <= 1 above -> non-detection, '
         'type >= 2 above -> removed; skipped and counted when the screening model rejects the transformed frame) => '
         'the three tables identical. Always: the multiset of rows at/below the limit in chunk.data equals the input\'s, '
-        'flag == (#above > MAX_HITS_OKTA0), and with MSA None chunk.data equals the input and the flag is false. '
+        'flag == (#above > MAX_HITS_OKTA0), and with MSA None (also when requested per call over a global MSA) chunk.data equals the input and the flag is false. '
         'Non-trivial = at least one hit above and one at/below the limit. Distinct by (class, #above, #on-limit, '
         'types above, MSA parameters, layer codes).')
 ASSUMPTIONS = ['message and flag are not compared for B2: the number of hits above the limit changes by design',
@@ -36,6 +36,11 @@ def strategy_(draw):
     case = draw(S.pipeline_case(WEIGHTS, vary=('msa', 'okta', 'sep', 'base'), p_default_prms=0.0, index_kinds=True,
                                 anomalies=True, anomaly_negative=False,
                                 msa_kinds=['athit'] * 4 + ['near'] * 3 + ['low', 'high', 'zero', 'none']))
+    if case['prms'].get('MSA', None) is None and draw(st.booleans()):
+        # "no MSA" requested per call while the global set holds one: nothing may be cropped
+        hs = S.heights_of(case)
+        case['prms']['MSA'] = None
+        case['gprms'] = {'MSA': int(hs[len(hs) // 2]) if hs else 1000, 'MSA_HIT_BUFFER': 0}
     case['redraw'] = draw(st.lists(st.sampled_from([0.0, 0.5, 1.0, 7.0, 100.0, 1000.0, 20000.0, 50000.0]),
                                    min_size=1, max_size=8))
     return case
